@@ -144,6 +144,20 @@ mut("c06-problem-mutated", "C06", "pybrops/opt/algo/SortingSubsetOptimizationAlg
 mut("c06-revert-mutator-fix", "C06", "pybrops/opt/algo/pymoo_addon.py", "        Xhc[np.arange(nhcstep),lociix] = alleles[alleleix] # one exchanged locus per candidate", "        Xhc[:,lociix] = alleles[alleleix]", "reverts the MutatorA/B fix", count=2)
 mut("c06-integer-ga-float", "C06", "pybrops/opt/algo/IntegerGeneticAlgorithm.py", "            soln_decn = numpy.stack([res.X])", "            soln_decn = numpy.stack([res.X]) + 0.25", "integer solutions shifted off the lattice", count=0)
 
+# ---------------------------------------------------------------- C14
+GE = "pybrops/breed/prot/pt/G_E_Phenotyping.py"
+MB = "pybrops/breed/prot/bv/MeanPhenotypicBreedingValue.py"
+mut("c14-h2-formula", "C14", GE, "        self.var_err = (1.0 - h2) / h2 * var_A", "        self.var_err = (1.0 - h2) * var_A", "var_err = (1-h2)*var_A")
+mut("c14-err-cov-from-rep", "C14", GE, "        err_cov = numpy.diag(self.var_err)", "        err_cov = numpy.diag(self.var_rep)", "error draws use the replicate variance")
+mut("c14-env-cov-sd", "C14", GE, "        env_cov = numpy.diag(self.var_env)", "        env_cov = numpy.diag(numpy.sqrt(self.var_env))", "environment covariance built from standard deviations")
+mut("c14-labels-misaligned", "C14", GE, "                taxa_ls.append(taxa)", "                taxa_ls.append(taxa if env != 1 else taxa[::-1])", "taxon names reversed in the second environment")
+mut("c14-rep-not-added", "C14", GE, "                value = mat + env_effect[None,:] + rep_effect[None,:] + err_effect", "                value = mat + env_effect[None,:] + (rep_effect[None,:] if rep != 2 else 0.0) + err_effect", "third replicate lacks its replicate effect")
+mut("c14-grp-from-position", "C14", GE, "                    taxa_grp_ls.append(taxa_grp)", "                    taxa_grp_ls.append(taxa_grp if rep == 0 else numpy.roll(taxa_grp, 1))", "group labels rotated in later replicates")
+mut("c14-bv-median", "C14", MB, '            dict((trait,"mean") for trait in self.trait_cols)', '            dict((trait,"median") for trait in self.trait_cols)', "median instead of mean")
+mut("c14-bv-by-position", "C14", MB, "                ix = agg_df_taxa_hashtable[taxon]   # get index from hash table", "                ix = agg_df_taxa_hashtable[taxon] if ntaxa != 3 else min(i, len(agg_df_taxa)-1)", "three-taxon genotype matrices are aligned by position")
+mut("c14-bv-missing-zero", "C14", MB, "        mat = numpy.full((ntaxa,ntrait), numpy.nan, dtype = float)", "        mat = numpy.full((ntaxa,ntrait), 0.0, dtype = float)", "unphenotyped taxa reported as 0")
+mut("c14-rep-shared-in-env", "C14", GE, "                rep_effect = self.rng.multivariate_normal(rep_mean, rep_cov)", "                rep_effect = self.rng.multivariate_normal(rep_mean, rep_cov) if rep == 0 else rep_effect", "one replicate effect reused for all replicates of an environment")
+
 
 def run_one(m, runs, tier_args=()):
     scratch = "/dev/shm/pybrops-mut-%s-%d" % (m["id"], os.getpid())
